@@ -277,7 +277,7 @@ func (p *Prog) runProperty(prop, tier string, timeout int) *checkRun {
 		for _, r := range p.wireResults(filepath.Join(dir, "wire")) {
 			run.results = append(run.results, r)
 			run.solverTime += r.TimeS
-			if r.Status == "unsat" {
+			if r.Status == "unsat" && r.Ob.Kind == "wire-dual" {
 				run.funcs = append(run.funcs, r.Ob.Func, strings.TrimSuffix(r.Ob.Func, ".encode")+".decode")
 			}
 		}
